@@ -163,8 +163,8 @@ func run(c *core.Ctx) error {
 	}
 	// ---- API-level replay
 	var units []unit
-	perPrimary := c.Pick(15000, 150000)
-	perSecondary := c.Pick(1500, 15000)
+	perPrimary := c.Pick(15000, 60000)
+	perSecondary := c.Pick(1500, 6000)
 	for _, d := range data {
 		prim, sec := mapPrimary, mapSecondary
 		if d.inst.Kind == "set" {
@@ -290,7 +290,7 @@ func run(c *core.Ctx) error {
 func faultStage(c *core.Ctx, pool *core.Pool, data []*instData) error {
 	var units []unit
 	var pres []*GenRec
-	perCfg := c.Pick(2500, 25000)
+	perCfg := c.Pick(2500, 8000)
 	for _, d := range data {
 		cfgs := []Config{{[2]string{"MapOV", "MapOV"}, "obj"}, {[2]string{"RecOV", "RecOV"}, "obj"}}
 		if d.inst.Kind == "set" {
